@@ -16,7 +16,7 @@ func (verifAddr) Network() string { return "v" }
 func (verifAddr) String() string  { return "peer" }
 
 // verifConn: transport stub. Whole delivery (Read returns min(len(p), available)) unless seg is set,
-// in which case each Read returns a case-split count 1..min(len(p), available).
+// in which case each Read returns 1 byte, half or all of min(len(p), available) (case split).
 type verifConn struct {
 	in     []byte
 	pos    int
@@ -25,6 +25,7 @@ type verifConn struct {
 	reads  int
 	closed bool
 	seg    bool
+	segBudget int // number of transport reads that are still segmented (the rest deliver everything available)
 	werr   error
 }
 
@@ -41,8 +42,15 @@ func (c *verifConn) Read(p []byte) (int, error) {
 	if n == 0 {
 		return 0, nil
 	}
-	if c.seg && n > 1 {
-		n = verifSplitInt("seg", 1, n)
+	if c.seg && n > 1 && c.segBudget > 0 {
+		c.segBudget--
+		// segmentation: one byte, about half, or everything that is available (case split)
+		switch verifSplitInt("seg", 0, 2) {
+		case 0:
+			n = 1
+		case 1:
+			n = (n + 1) / 2
+		}
 	}
 	copy(p, c.in[c.pos:c.pos+n])
 	c.pos += n
